@@ -13,6 +13,8 @@ PROP = {
         {"name": "cxx_ring_large", "quick": 30000, "thorough": 400000, "maxlen": 3000},
         {"name": "cyclic_large", "quick": 20000, "thorough": 300000, "maxlen": 3000},
         {"name": "cyclic_huge", "quick": 600, "thorough": 8000, "maxlen": 200},
+        {"name": "cxx_ring_strings", "quick": 150000, "thorough": 1500000, "maxlen": 200},
+        {"name": "cxx_ring_moved", "quick": 150000, "thorough": 1500000, "maxlen": 200},
     ],
     "fuzz": [{"name": "c_ring", "secs": 45, "maxlen": 640}, {"name": "cxx_ring", "secs": 45, "maxlen": 640}],
 }
